@@ -56,18 +56,26 @@ ModOK(cs) == /\ \A c \in 1..Len(cs) : cs[c].par # 0 => cs[cs[c].par].mod <= cs[c
 LegalU(cs) == \A c \in 1..Len(cs) : ~(cs[c].abs /\ cs[c].al # 0)
 CollisionFreeU(cs) == \A c, d \in 1..Len(cs) : (cs[c].al # 0 /\ cs[c].al = cs[d].al) => c = d
 NameSeqs == {nm \in [1..M -> 0..A] : \A i, j \in 1..M : (nm[i] # 0 /\ nm[i] = nm[j]) => i = j}
+\* ancestors-or-self of every class (the root interface 0 included), computed once per universe
+RECURSIVE AncOf(_, _)
+AncOf(cs, c) == IF c = 0 THEN {0} ELSE {c} \cup AncOf(cs, cs[c].par)
+\* modules executed when m is imported: m and, first, the modules of the parents of its classes (transitively)
+RECURSIVE CloOf(_, _)
+CloOf(cs, m) == {m} \cup UNION {CloOf(cs, cs[cs[c].par].mod) :
+                                  c \in {d \in 1..Len(cs) : cs[d].mod = m /\ cs[d].par # 0 /\ cs[cs[d].par].mod # m}}
+Uni(cs, nm) == [cls |-> cs, name |-> nm, anc |-> [c \in 1..Len(cs) |-> AncOf(cs, c)],
+                clo |-> [m \in 1..Len(nm) |-> CloOf(cs, m)]]
 Universes ==
     IF UseModules
-    THEN {[cls |-> cs, name |-> nm] : cs \in {x \in ClsSeqs(N) : ModOK(x) /\ LegalU(x) /\ CollisionFreeU(x)
+    THEN {Uni(cs, nm) : cs \in {x \in ClsSeqs(N) : ModOK(x) /\ LegalU(x) /\ CollisionFreeU(x)
                                                                /\ \E c \in 1..N : x[c].mod = M},
                                       nm \in NameSeqs}
-    ELSE {[cls |-> cs, name |-> [i \in 1..M |-> 0]] : cs \in {x \in ClsSeqs(N) : AliasCanon(x) /\ ModOK(x)}}
+    ELSE {Uni(cs, [i \in 1..M |-> 0]) : cs \in {x \in ClsSeqs(N) : AliasCanon(x) /\ ModOK(x)}}
 
 (***************************** static vocabulary ***************************)
 Cls == 1..Len(u.cls)
 Par(c) == u.cls[c].par
-RECURSIVE AncSelf(_)
-AncSelf(c) == IF c = 0 THEN {0} ELSE {c} \cup AncSelf(Par(c))
+AncSelf(c) == u.anc[c]
 Concrete(c) == ~u.cls[c].abs
 Legal(c) == ~(u.cls[c].abs /\ u.cls[c].al # 0)
 \* reference kinds: 1 = alias n, 2 = qualified name of class n (n up to N + 1: one unknown of each kind)
@@ -79,9 +87,7 @@ Look(via, r) == One(Found(acc, via, r))
 
 ModsOf(m) == {c \in Cls : u.cls[c].mod = m}
 Mods == 1..Len(u.name)
-\* modules executed when m is imported: m and, first, the modules of the parents of its classes
-RECURSIVE Closure(_)
-Closure(m) == {m} \cup UNION {Closure(u.cls[Par(c)].mod) : c \in {d \in ModsOf(m) : Par(d) # 0 /\ u.cls[Par(d)].mod # m}}
+Closure(m) == u.clo[m]
 ClassesOf(ms) == {c \in Cls : u.cls[c].mod \in ms}
 \* the module a lazy lookup of r through `via` is able to discover (0 = none): the module named by a qualified
 \* name, or - through the root only, which owns the search path - the module called like the alias
@@ -100,7 +106,8 @@ Vias == {0} \cup acc
 Table == {[via |-> v, t |-> r[1], n |-> r[2], must |-> IF UseModules THEN Must(v, r) ELSE Look(v, r),
            may |-> IF UseModules THEN Whole(v, r) ELSE Look(v, r)] : v \in Vias, r \in Refs}
 
-Ev(op, a, t, n, out, may) == [op |-> op, a |-> a, t |-> t, n |-> n, out |-> out, may |-> may, table |-> {}]
+Ev(op, a, t, n, out, must, may) ==
+    [op |-> op, a |-> a, t |-> t, n |-> n, out |-> out, must |-> must, may |-> may, table |-> {}]
 
 (********************************* actions *********************************)
 Init == /\ u \in Universes
@@ -110,29 +117,35 @@ Outcome(c) == IF ~Legal(c) THEN "illegal"
               ELSE IF u.cls[c].al # 0 /\ \E d \in acc : u.cls[d].al = u.cls[c].al THEN "collision"
               ELSE "ok"
 \* the class statement of c executes (its parent exists)
+CanRegister(c) == c \in Cls /\ c \notin Range(att) /\ (Par(c) = 0 \/ Par(c) \in acc)
 Register(c) == /\ ~UseModules
-               /\ c \notin Range(att) /\ (Par(c) = 0 \/ Par(c) \in acc)
+               /\ CanRegister(c)
+               /\ UNCHANGED <<u, imp, gets>>
                /\ att' = Append(att, c)
                /\ acc' = IF Outcome(c) = "ok" THEN acc \cup {c} ELSE acc
-               /\ hist' = Append(hist, [Ev("reg", c, 0, 0, Outcome(c), 0) EXCEPT !.table = Table'])
-               /\ UNCHANGED <<u, imp, gets>>
-Import(m) == /\ UseModules /\ m \notin imp
+               /\ hist' = IF DoExport THEN Append(hist, [Ev("reg", c, 0, 0, Outcome(c), 0, 0) EXCEPT !.table = Table'])
+                          ELSE hist
+Import(m) == /\ UseModules /\ m \in Mods /\ m \notin imp
              /\ imp' = imp \cup Closure(m)
              /\ acc' = acc \cup ClassesOf(Closure(m))
-             /\ hist' = Append(hist, Ev("imp", m, 0, 0, "ok", 0))
+             /\ hist' = IF DoExport THEN Append(hist, Ev("imp", m, 0, 0, "ok", 0, 0)) ELSE hist
              /\ UNCHANGED <<u, att, gets>>
 \* a lookup that may have to discover the module; what it returns is certainly registered afterwards
-Lookup(via, r) == /\ UseModules /\ gets < MaxGets /\ via \in Vias
+\* (as an event only references that exist somewhere in the universe: the unknown ones are in every Table)
+Lookup(via, r) == /\ UseModules /\ gets < MaxGets /\ via \in Vias /\ r \in Refs /\ imp # Mods
+                  /\ r[2] <= (IF r[1] = 1 THEN A ELSE Len(u.cls))
                   /\ LET res == Must(via, r)
                          new == IF res = 0 THEN {} ELSE Closure(u.cls[res].mod)
                      IN /\ imp' = imp \cup new
                         /\ acc' = acc \cup ClassesOf(new)
-                        /\ hist' = Append(hist, Ev("get", via, r[1], r[2], "get", Whole(via, r)) )
+                        /\ hist' = IF DoExport THEN Append(hist, Ev("get", via, r[1], r[2], "get", res, Whole(via, r)))
+                                   ELSE hist
                   /\ gets' = gets + 1
                   /\ UNCHANGED <<u, att>>
-Next == \/ \E c \in Cls : Register(c)
-        \/ \E m \in Mods : Import(m)
-        \/ \E v \in Vias, r \in Refs : Lookup(v, r)
+\* (constant bounds, so that TLC reports coverage per action)
+Next == \/ \E c \in 1..N : Register(c)
+        \/ \E m \in 1..M : Import(m)
+        \/ \E v \in 0..N, t \in 1..2, n \in 1..(N + A + 1) : Lookup(v, <<t, n>>)
 Spec == Init /\ [][Next]_vars
 
 (******************************** invariants *******************************)
@@ -148,9 +161,8 @@ Tried == IF UseModules THEN acc ELSE Range(att)
 CollisionsRejected ==
     /\ \A c \in Tried \ acc : ~Legal(c) \/ \E d \in acc : d # c /\ u.cls[d].al = u.cls[c].al
     /\ \A c, d \in acc : (u.cls[c].al # 0 /\ u.cls[c].al = u.cls[d].al) => c = d
-    /\ ~UseModules => \A i, j \in 1..Len(att) :
-           (i < j /\ att[j] \in acc /\ Legal(att[i]) /\ u.cls[att[i]].al # 0 /\ u.cls[att[i]].al = u.cls[att[j]].al)
-               => att[i] \notin acc /\ \E h \in 1..(i - 1) : att[h] \in acc /\ u.cls[att[h]].al = u.cls[att[i]].al
+    /\ ~UseModules => \A j \in 1..Len(att) : (Legal(att[j]) /\ u.cls[att[j]].al # 0) =>
+           (att[j] \in acc <=> \A i \in 1..(j - 1) : ~(Legal(att[i]) /\ u.cls[att[i]].al = u.cls[att[j]].al))
 \* collision-free: the accepted set, hence every answer, depends on the set of classes only
 OrderIndependent ==
     (\A c, d \in Tried : (Legal(c) /\ Legal(d) /\ u.cls[c].al # 0 /\ u.cls[c].al = u.cls[d].al) => c = d)
@@ -162,6 +174,7 @@ LazySound == UseModules => \A v \in Vias, r \in Refs :
                  /\ Look(v, r) # 0 => Must(v, r) = Look(v, r)
                  /\ acc = ClassesOf(imp)
 
-Done == IF UseModules THEN (imp = Mods \/ Len(hist) >= M + MaxGets) ELSE ~(\E c \in Cls : ENABLED Register(c))
+Done == IF UseModules THEN (imp = Mods \/ (DoExport /\ hist # <<>> /\ hist[Len(hist)].op = "get"))
+        ELSE ~(\E c \in Cls : CanRegister(c))
 Export == (DoExport /\ Done) => PrintT(ToJson([u |-> u, hist |-> hist, table |-> Table]))
 =============================================================================
